@@ -246,7 +246,14 @@ pub fn gen_rules<R: Rng>(rng: &mut R, r: &PortableRegistry, ctx: &mut Ctx) -> Ve
             (6, a) if a >= 1 => (src_generic.clone(), format!("{y}<{}, u8, ::fixed::Extra>", sp[0]), "fixed-extra"),
             (7, a) if a >= 2 => (src_generic.clone(), format!("{y}<{}>", sp[1]), "fewer"),
             (8, a) if a >= 1 => (src_generic.clone(), format!("{y}<{}, Unrelated>", sp.join(", ")), "more"),
-            (9, a) if a >= 1 => (src_generic.clone(), format!("{y}<::z::W<({}, u8)>, ::z::V<[{}; 4]>, ::z::R<&'static {}>>", sp[0], sp[sp.len() - 1], sp[0]), "nested-non-path"),
+            (9, a) if a >= 1 => {
+                if self_chance(rng) {
+                    (src_generic.clone(), format!("{y}<::z::W<({}, u8)>, ::z::V<[{}; 4]>, ::z::R<&'static {}>>", sp[0], sp[sp.len() - 1], sp[0]), "nested-non-path")
+                } else {
+                    // slices, raw pointers, parenthesised types
+                    (src_generic.clone(), format!("{y}<::z::S<[{}]>, ::z::P<*const {}>, ::z::Q<({})>>", sp[0], sp[sp.len() - 1], sp[0]), "nested-non-path")
+                }
+            }
             (_, a) if a >= 1 => (src_generic.clone(), y.clone(), "generics-to-none"),
             _ => (path.clone(), format!("{y}<u8>"), "none-to-generics"),
         };
